@@ -205,7 +205,7 @@ class TopoRunner:
     # ------------------------------------------------------------------------------------------- execution
     HANDLE_ARGS = {"Connect": ("s",), "Disconnect": ("s",), "AddInterface": ("s",), "Peer": ("a", "b"), "Unpeer": ("a", "b"),
                    "AddSubInterface": ("i",), "RemoveSubInterface": ("i",)}
-    OBSERVERS = ("Views", "HandleIfs")
+    OBSERVERS = ("Views", "HandleIfs", "ConstraintTables")
 
     def apply(self, o):
         """handles stay alive only across consecutive calls made through them: any other mutating call drops them
@@ -362,7 +362,13 @@ class TopoRunner:
             self.need(o["p"])
             h = self.elem(o["p"], persistent=True)
             if o["kind"] == "sp":
-                h.set_property(o["pname"].lower(), o["val"])
+                pn = {"Site": "site", "MirrorPort": "mirror_port", "MirrorVlan": "mirror_vlan", "MirrorDirection": "mirror_direction",
+                      "ControllerURL": "controller_url"}[o["pname"]]
+                val = o["val"]
+                if pn == "mirror_direction":
+                    from fim.slivers.network_service import MirrorDirection
+                    val = MirrorDirection[val]
+                h.set_property(pn, val)
             else:
                 kw = self._rp_kwargs({o["pname"]: o["val"]})
                 (k, v), = kw.items()
@@ -376,6 +382,19 @@ class TopoRunner:
         if op == "Validate":
             t.validate()
             return none
+        if op == "ConstraintTables":
+            from fim.slivers.network_service import NetworkServiceSliver
+            from fim.slivers.network_node import NodeSliver
+            from fim.slivers.network_link import NetworkLinkSliver
+            svc = {}
+            for st, c in NetworkServiceSliver.ServiceConstraints.items():
+                svc[st.name] = {"layer": str(c.layer), "min_if": c.min_interfaces, "max_if": c.num_interfaces, "sites": c.num_sites,
+                                "instances": c.num_instances, "req": sorted(c.required_properties),
+                                "forb": sorted(c.forbidden_properties), "iftypes": sorted(str(x) for x in c.required_interface_types)}
+            node = {nt.name: {"req": sorted(c.required_properties), "forb": sorted(c.forbidden_properties)}
+                    for nt, c in NodeSliver.NodeConstraints.items()}
+            link = {lt.name: str(c.layer) for lt, c in NetworkLinkSliver.LinkConstraints.items()}
+            return {"k": "tables", "svc": svc, "node": node, "link": link}
         if op == "Views":
             self.project()
             P = self._paths
